@@ -292,6 +292,8 @@ func runCheck(prop, tier string, ovs []string, only string, writeBaseline, noRep
 	// obligations with a counter-model the replay could not realise, the executable contract is used as an oracle on
 	// generated inputs of the real function. It can only confirm a violation.
 	boundedRuns := 0
+	var knownBounded []string
+	_ = knownBounded
 	if !noReplay {
 		need := map[*FuncResult]bool{}
 		for _, fr := range frs {
@@ -333,6 +335,14 @@ func runCheck(prop, tier string, ovs []string, only string, writeBaseline, noRep
 				continue
 			}
 			fr.searchResult = "violation-found"
+			// a recorded finding names the bounded-search obligation of a scenario that states exactly the failing case
+			if kf := boundedFinding(ctx, prop, fr); kf != nil {
+				fr.searchResult = "known-finding"
+				os.WriteFile(filepath.Join(dir, "replay.log"), []byte(log), 0o644)
+				lines = append(lines, fmt.Sprintf("KNOWN-FINDING: property=%s %s (%s; obligation %s#bounded-search)", prop, kf.What, kf.ID, fr.fc.Func))
+				knownBounded = append(knownBounded, kf.ID)
+				continue
+			}
 			os.WriteFile(filepath.Join(dir, "replay.log"), []byte(log), 0o644)
 			os.WriteFile(filepath.Join(dir, "obligation.txt"), []byte(fmt.Sprintf("property: %s\nfunction: %s\nkind: bounded concrete search with the executable contract as oracle (stand-in, %d generated inputs)\nreason it ran: %s\n", prop, fr.fc.Func, n, fr.undecided)), 0o644)
 			violations++
@@ -435,7 +445,7 @@ func runCheck(prop, tier string, ovs []string, only string, writeBaseline, noRep
 		return 1
 	}
 	// vacuity: zero obligations or a contract that excludes everything is broken machinery, not a pass
-	if len(all) == 0 || counts["cover-fail"] > 0 || vacuousEffects > 0 {
+	if (len(all) == 0 && boundedRuns == 0) || counts["cover-fail"] > 0 || vacuousEffects > 0 {
 		fmt.Println("CHECK BROKEN: no obligations generated or vacuous contract")
 		return 3
 	}
@@ -816,4 +826,19 @@ func firstNonEmpty(xs ...string) string {
 		}
 	}
 	return ""
+}
+
+// boundedFinding looks up a recorded finding for the bounded-search obligation of a function.
+func boundedFinding(ctx *Context, prop string, fr *FuncResult) *Finding {
+	if ctx.findings == nil || fr.fc == nil {
+		return nil
+	}
+	name := fr.fc.Func + "#bounded-search"
+	for i := range ctx.findings.Findings {
+		f := &ctx.findings.Findings[i]
+		if f.Property == prop && f.Obligation == name && (f.Package == "" || f.Package == fr.fc.PkgPath) {
+			return f
+		}
+	}
+	return nil
 }
